@@ -227,3 +227,8 @@ def run(chk):
     from . import e2e
     chk.guard("R03.7", "e2e", e2e.check, chk, F, "R03.7", "nonmall",
               "end to end on a bounded family (~60 scripts x asset subsets): no single or double third-party edit (drop / insert / replace with 0, 1, revealed preimages, keys, zeros, junk, signatures already present) of a witness returned in non-malleable mode is accepted by the reference execution under MINIMALIF + NULLFAIL")
+    # the non-malleable entry points of every output type (get_satisfaction, plan_satisfaction, satisfy, finalize ...)
+    # must not route into a malleable internal: who-calls-whom rule over all mode-specific call sites (shared with C02)
+    from .. import modes
+    n = modes.check_modes(chk, F, "R03.8", c02.MODE_FILES)
+    chk.floor("R03.8", "mode-specific call sites", n, 70)
